@@ -4,6 +4,7 @@
 mod rng;
 mod c10;
 mod c13;
+mod c19;
 mod ser;
 mod lay;
 mod kan;
@@ -33,6 +34,7 @@ fn main() {
             let lines = match prop {
                 "C10" => c10::gen(tier, seed),
                 "C13" => c13::gen(tier, seed),
+                "C19" => c19::gen(tier, seed),
                 "C04" => c04::gen(tier, seed),
                 "LALL" => lall::gen(tier, seed),
                 "KALL" => kall::gen(tier, seed),
@@ -62,6 +64,7 @@ fn main() {
                     "C10" => c10::eval(&l2),
                     "KALL" | "C01" | "C02" | "C07" | "C14" | "C18" => kan::eval(&l2),
                     "C13" => c13::eval(&l2),
+                    "C19" => c19::eval(&l2),
                     "C04" | "LALL" | "C05" | "C06" | "C17" | "C08" | "C09" => lay::eval(&l2),
                     _ => "bad-prop".to_string(),
                 });
